@@ -35,16 +35,25 @@ func simYieldMix(a, b uint64) uint64 {
 	return x
 }
 
+// simYieldOnly, when not empty, restricts the steering to the points with this prefix (harnesses with tight timing
+// oracles steer one point only); reset by simYieldInstall(0).
+var simYieldOnly string
+
 // simYieldInstall activates the yield points for the current case; seed 0 turns them off.
 func simYieldInstall(seed uint64) {
 	if seed == 0 {
 		verifYieldFn.Store(nil)
+		simYieldOnly = ""
 		return
 	}
+	only := simYieldOnly
 	simYieldMu.Lock()
 	simYieldCtr = map[string]uint64{}
 	simYieldMu.Unlock()
 	f := func(point, peer string) {
+		if only != "" && !strings.HasPrefix(point, only) {
+			return
+		}
 		// the decision depends on the seed, the point and how often the point was
 		// reached in this case: the same for every run of a sequential history
 		simYieldMu.Lock()
